@@ -105,7 +105,7 @@ StepOK ==
   /\ (EnableBreaker /\ consec' >= Threshold => circuit' # "closed")                                  \* TripsByThreshold
   /\ (Req /\ EnableBreaker /\ circuit = "open" /\ ~Timed =>
         obs'.res.action = "CIRCUIT_OPEN" /\ obs'.res.blocked /\ obs'.dinv = 0)                       \* Isolation
-  /\ (Req /\ EnableBreaker /\ circuit = "open" /\ Timed /\ ~obs'.cached => obs'.dinv > 0)            \* ProbeAdmitted
+  /\ (Req /\ EnableBreaker /\ (circuit = "half" \/ (circuit = "open" /\ Timed)) /\ ~obs'.cached => obs'.dinv > 0)   \* ProbeAdmitted
   /\ (Req /\ circuit = "half" /\ obs'.kind = "success" => circuit' = "closed" /\ failures' = 0)       \* ProbeSuccessCloses
   /\ (Req /\ EnableBreaker /\ (circuit = "half" \/ (circuit = "open" /\ Timed)) /\ ~obs'.cached
           /\ DefiniteFailure(obs'.z, obs'.y) => circuit' = "open" /\ sinceFail' = 0)                  \* ProbeFailureReopens
